@@ -983,3 +983,63 @@ R("cancel-guards-reordered", ["C14"],
 		}
 	}
 """))
+
+# ------------------------------------------------------------------ C10
+VSET = "identity/validator_set.go"
+M("elect-malicious-allowed", "C10", "C10.elect",
+  (VSET, """				if !isMalicious {
+					updateTendermint = true""", """				if !isMalicious || validator.Power > minSelfDelegationAmount*2 {
+					updateTendermint = true"""))
+M("elect-no-top-limit", "C10", "C10.elect",
+  (VSET, """			if validator.Power >= minSelfDelegationAmount && cnt < stakingOptions.TopValidatorCount {""", """			if validator.Power >= minSelfDelegationAmount && cnt <= stakingOptions.TopValidatorCount {"""))
+M("endblock-unsorted-when-empty-purge", "C10", "C10.sorted",
+  (VSET, """	sort.Slice(validatorUpdates, func(i, j int) bool {
+		return bytes.Compare(validatorUpdates[i].PubKey.GetData(), validatorUpdates[j].PubKey.GetData()) < 0
+	})
+""", """	if len(validatorUpdates) > 2 {
+		sort.Slice(validatorUpdates, func(i, j int) bool {
+			return bytes.Compare(validatorUpdates[i].PubKey.GetData(), validatorUpdates[j].PubKey.GetData()) < 0
+		})
+	} else {
+		return validatorUpdates
+	}
+"""))
+M("queue-min-heap", "C10", "C10.queue",
+  ("utils/priority_queue.go", """	return vq[i].priority > vq[j].priority""", """	return vq[i].priority < vq[j].priority"""))
+M("purge-height-not-recorded", "C10", "C10.purge",
+  (VSET, """			err = vs.SetLastPurgeHeight(keys.Address(addr), height)
+			if err != nil {""", """			if vs.lastActive[addr] > 0 {
+				continue
+			}
+			err = vs.SetLastPurgeHeight(keys.Address(addr), height)
+			if err != nil {"""))
+M("stake-window-off-by-one", "C10", "C10.window",
+  (VSET, """	if purgeHeight > 0 && purgeHeight+2 > height {
+		return errors.New("not allowed to stake within 2 blocks after unstake")""", """	if purgeHeight > 0 && purgeHeight+1 > height {
+		return errors.New("not allowed to stake within 2 blocks after unstake")"""))
+M("elect-current-height-record", "C10", "C10.elect",
+  (VSET, """			data := vs.store.GetVersioned(height-1, key)
+			if len(data) == 0 {
+				logger.Errorf("Previous state data not found for address: %s", addrHuman)
+				continue
+			}
+			validator := &Validator{}""", """			data := vs.store.GetVersioned(height, key)
+			if len(data) == 0 {
+				logger.Errorf("Previous state data not found for address: %s", addrHuman)
+				continue
+			}
+			validator := &Validator{}"""))
+R("purge-window-helper", ["C10"],
+  (VSET, """			if purgeHeight > 0 && height <= purgeHeight+2 {
+				continue
+			}""", """			if recentlyPurged(purgeHeight, height) {
+				continue
+			}"""),
+  (VSET, """func (vs *ValidatorStore) GetBitcoinKeys(""", """func recentlyPurged(purgeHeight, height int64) bool {
+	if purgeHeight <= 0 {
+		return false
+	}
+	return height-purgeHeight <= 2
+}
+
+func (vs *ValidatorStore) GetBitcoinKeys("""))
